@@ -89,16 +89,18 @@ def gen_case(rng, i):
                 if o[1] == "r":
                     o.append(rng.randint(1, 9))
         return {"kind": kind, "scripts": scripts, "allow": rng.random() < 0.6, "ops": ops, "reset_kw": reset_kw,
+                "reward_scale": rng.choice([None, None, None, 0.3337, 1e-3 / 3, 1234.567]),
                 "info_keywords": rng.choice([[], ["tag"], ["tag", "k1"]]), "id": i}
     if kind == "vecmon":
         k = rng.randint(1, 4)
         scripts = [se.gen_script(rng, max_len=5) for _ in range(k)]
         n_ops = rng.randint(1, 22)
         ops = ["r"] + [("r" if rng.random() < 0.15 else "s") for _ in range(n_ops)]
-        return {"kind": kind, "scripts": scripts, "ops": ops, "info_keywords": rng.choice([[], ["tag"], ["tag", "k1"]]), "id": i}
+        return {"kind": kind, "scripts": scripts, "ops": ops, "info_keywords": rng.choice([[], ["tag"], ["tag", "k1"]]),
+                "reward_scale": rng.choice([None, None, None, 0.3337, 1e-3 / 3, 1234.567]), "id": i}
     k = rng.randint(1, 6)
     scripts = [se.gen_script(rng, max_len=rng.choice([2, 4, 7])) for _ in range(k)]
-    return {"kind": kind, "scripts": scripts, "n": rng.randint(1, 15), "mode": rng.choice([0, 1, 2]),
+    return {"kind": kind, "scripts": scripts, "n": rng.randint(1, 15), "mode": rng.choice([0, 1, 2, 3]),
             "threshold": rng.choice([None, None, rng.randint(-16, 16) / 4.0]), "id": i}
 
 
@@ -118,9 +120,15 @@ def run_monitor(case):
         kw = tuple(case["info_keywords"])
         rkw = ("difficulty",) if case.get("reset_kw") else ()
 
+        scale = case.get("reward_scale")
+
         class KwEnv(se.ScriptedEnv):
             def reset(self, *, seed=None, options=None, **extra):
                 return super().reset(seed=seed, options=options)
+
+            def step(self, action):
+                o, r, te, tr, info = super().step(action)
+                return o, (r if scale is None else r * scale), te, tr, info
 
         envs = [KwEnv(sc, extra_info={"k1": 7 + j}, env_id=j) for j, sc in enumerate(case["scripts"])]
         mons = [M.Monitor(e, filename=os.path.join(d, f"m{j}"), allow_early_resets=case["allow"], info_keywords=kw, reset_keywords=rkw) for j, e in enumerate(envs)]
@@ -158,7 +166,14 @@ def run_vecmon(case):
     try:
         kw = tuple(case["info_keywords"])
         k = len(case["scripts"])
-        venv = DummyVecEnv([se.make_env_fn(sc, extra_info={"k1": 7 + j}, env_id=j) for j, sc in enumerate(case["scripts"])])
+        scale = case.get("reward_scale")
+
+        class ScaledEnv(se.ScriptedEnv):
+            def step(self, action):
+                o, r, te, tr, info = super().step(action)
+                return o, (r if scale is None else r * scale), te, tr, info
+
+        venv = DummyVecEnv([(lambda sc=sc, j=j: ScaledEnv(sc, extra_info={"k1": 7 + j}, env_id=j)) for j, sc in enumerate(case["scripts"])])
         vm = VM.VecMonitor(venv, filename=os.path.join(d, "vm"), info_keywords=kw)
         events = []
         for op in case["ops"]:
@@ -201,11 +216,35 @@ def run_eval(case):
     mode = case["mode"]
     raw = []
 
+    import gymnasium as gym
+
+    class Lives(gym.Wrapper):
+        """outside Monitor, like EpisodicLifeEnv: reports terminated=True when a life is lost (info tag multiple of 4) although the
+        episode goes on; the reset that follows is swallowed, so neither the env nor the Monitor is reset"""
+
+        def __init__(self, env):
+            super().__init__(env)
+            self.real_done, self.last_obs = True, None
+
+        def step(self, action):
+            obs, r, term, trunc, info = self.env.step(action)
+            self.real_done = bool(term or trunc)
+            if not self.real_done and info["tag"] % 4 == 0:
+                term = True
+            self.last_obs = obs
+            return obs, r, term, trunc, info
+
+        def reset(self, **kw):
+            if self.real_done:
+                self.real_done = False
+                return self.env.reset(**kw)
+            return self.last_obs, {}
+
     def mk(j, sc):
         def f():
             e = se.ScriptedEnv(sc, env_id=j)
             raw.append(e)
-            return M.Monitor(e) if mode == 1 else e
+            return M.Monitor(e) if mode == 1 else Lives(M.Monitor(e)) if mode == 3 else e
         return f
 
     def build():
@@ -255,6 +294,8 @@ RUN = {"monitor": run_monitor, "vecmon": run_vecmon, "eval": run_eval}
 def model_exprs(case, impl):
     from harness.scripted_envs import coq_script
 
+    if case.get("reward_scale") is not None:
+        return ["true"]          # off the 1/4 grid the exact model does not apply: oracle with explicit tolerances only
     if case["kind"] == "monitor":
         ex = []
         for w, sc in enumerate(case["scripts"]):
@@ -283,6 +324,19 @@ def script_episodes(sc, count):
     """true (return in 1/4 units, length) of the first `count` episodes a scripted env plays (episodes cycle)"""
     eps = sc["episodes"]
     return [(sum(s["r4"] for s in eps[j % len(eps)]["steps"]), len(eps[j % len(eps)]["steps"])) for j in range(count)]
+
+
+def _sum_close(got, want, case, f32=False):
+    """reward sums: exact on the 1/4 grid; off the grid Monitor rounds to 6 digits (abs 1e-6 + float64 noise), VecMonitor accumulates in float32 (rel 1e-5)"""
+    if case.get("reward_scale") is None:
+        return got == want
+    if f32:   # float32 accumulation: error relative to the magnitude of the rewards (|reward| <= 2*scale, episodes of at most ~30 steps), not of the sum
+        return abs(got - want) <= 1e-5 * abs(want) + 1e-6 * 60 * abs(case["reward_scale"])
+    return abs(got - want) <= 1e-6 + 1e-12 * abs(want)
+
+
+def _rows_close(got, want, case, f32=False):
+    return len(got) == len(want) and all(len(a) == len(b) and _sum_close(a[0], b[0], case, f32) and a[1:] == b[1:] for a, b in zip(got, want))
 
 
 def compare_monitor(case, impl, mv):
@@ -322,7 +376,7 @@ def compare_monitor(case, impl, mv):
                 if ep is None:
                     probs.append(("oracle-monitor-episode-info-missing", f"op {n}: episode ended, no 'episode' entry in info"))
                 else:
-                    if ep["r"] != want["r"] or ep["l"] != want["l"]:
+                    if not _sum_close(ep["r"], want["r"], case) or ep["l"] != want["l"]:
                         probs.append(("oracle-monitor-episode-info", f"op {n}: info episode r={ep['r']} l={ep['l']}, the episode that ended has sum={want['r']} steps={want['l']}"))
                     for key in kw:
                         if ep.get(key) != ev["info_" + key]:
@@ -334,15 +388,17 @@ def compare_monitor(case, impl, mv):
                 cur[w] = None
             elif ev["ep"] is not None:
                 probs.append(("oracle-monitor-spurious-episode-info", f"op {n}: 'episode' entry on a step that does not end the episode"))
-    if impl["rows"] != expected_rows:
+    if not _rows_close(impl["rows"], expected_rows, case):
         probs.append(("oracle-monitor-file-rows", f"load_results rows {impl['rows']} != episodes that ended, in order {expected_rows}"))
     for w, st in enumerate(impl["stats"]):
-        if list(zip(st["returns"], st["lengths"])) != per_mon_eps[w]:
+        if not _rows_close([list(x) for x in zip(st["returns"], st["lengths"])], [list(x) for x in per_mon_eps[w]], case):
             probs.append(("oracle-monitor-getters", f"monitor {w}: get_episode_rewards/lengths {list(zip(st['returns'], st['lengths']))} != {per_mon_eps[w]}"))
         tms = st["times"]
         if len(tms) != len(per_mon_eps[w]) or any(b <= a for a, b in zip(tms, tms[1:])) or any(t <= 0 for t in tms):
             probs.append(("oracle-monitor-episode-times", f"monitor {w}: get_episode_times {tms} is not one increasing positive time per episode"))
     # ---- model vs impl
+    if case.get("reward_scale") is not None:
+        return probs
     for w in range(len(case["scripts"])):
         outs, rows, total = mv[w]
         evs = [ev for ev in impl["events"] if ev["w"] == w]
@@ -387,7 +443,7 @@ def compare_vecmon(case, impl, mv):
                 if ep is None:
                     probs.append(("oracle-vecmonitor-episode-info-missing", f"op {n} env {i}: done without 'episode' entry"))
                 else:
-                    if (ep["r"], ep["l"]) != want:
+                    if not _sum_close(ep["r"], want[0], case, f32=True) or ep["l"] != want[1]:
                         probs.append(("oracle-vecmonitor-episode-info", f"op {n} env {i}: info episode r={ep['r']} l={ep['l']}, the episode that ended has sum={want[0]} steps={want[1]}"))
                     extra = {"tag": ev["tags"][i], "k1": ev["k1"][i]}
                     for key in kw:
@@ -397,8 +453,10 @@ def compare_vecmon(case, impl, mv):
                 cur[i] = []
             elif ep is not None:
                 probs.append(("oracle-vecmonitor-spurious-episode-info", f"op {n} env {i}: 'episode' entry without done"))
-    if impl["rows"] != expected_rows:
+    if not _rows_close(impl["rows"], expected_rows, case, f32=True):
         probs.append(("oracle-vecmonitor-file-rows", f"load_results rows {impl['rows']} != episodes that ended, in order {expected_rows}"))
+    if case.get("reward_scale") is not None:
+        return probs
     rows, outs = mv[0]
     if len(outs) != len(impl["events"]):
         probs.append(("vecmonitor-model-length", f"{len(outs)} model outputs for {len(impl['events'])} operations"))
@@ -515,11 +573,12 @@ def main():
         cases.append(gen_case(chk.rng, i))
     impls, results = run_cases(chk, cases)
     distinct = set()
-    hist = {"monitor": 0, "monitor_two_files": 0, "monitor_no_early_resets": 0, "vecmon": 0, "eval": 0, "eval_mode": {"0": 0, "1": 0, "2": 0},
+    hist = {"monitor": 0, "monitor_two_files": 0, "monitor_no_early_resets": 0, "vecmon": 0, "eval": 0, "eval_mode": {"0": 0, "1": 0, "2": 0, "3": 0}, "off_grid_rewards": 0,
             "eval_n_lt_envs": 0, "n_envs": {}, "info_keywords": {}}
     reported = set()
     for c, im, probs in zip(cases, impls, results):
         hist[c["kind"]] += 1
+        hist["off_grid_rewards"] += int(c.get("reward_scale") is not None)
         if c["kind"] == "monitor":
             hist["monitor_two_files"] += int(len(c["scripts"]) == 2)
             hist["monitor_no_early_resets"] += int(not c["allow"])
